@@ -1328,8 +1328,13 @@ func (se *symEval) binop(n ast.Node, op token.Token, l, r sval, resT types.Type)
 	case token.AND:
 		// sym & mask with a declared residue
 		for _, pr := range [][2]*term{{l.t, r.t}, {r.t, l.t}} {
-			if pr[0].op == "sym" && pr[1].isConst() {
-				if m, ok := se.attrs[pr[0].name]; ok {
+			sy := pr[0]
+			// an extension of a narrower symbol (an int on a 32-bit target) keeps the bits below its width
+			if (sy.op == "sext" || sy.op == "zext") && len(sy.args) == 1 && sy.args[0].op == "sym" && pr[1].isConst() && sy.k < 64 && pr[1].k < uint64(1)<<uint(sy.k-1) {
+				sy = sy.args[0]
+			}
+			if sy.op == "sym" && pr[1].isConst() {
+				if m, ok := se.attrs[sy.name]; ok {
 					if v, ok := m[pr[1].k]; ok {
 						return se.intVal(tConst(v), resT)
 					}
